@@ -482,4 +482,270 @@ Section Emission.
       intros u j Hin. destruct (Hent _ _ Hin) as [Hj (idx0 & Hn0 & Hp0)]. split; [lia|]. exists idx0. cbn [rev].
       split; [rewrite nth_error_snoc_lt by (rewrite rev_length; lia); assumption|assumption].
   Qed.
+
+  Lemma sfvr_done st cur f ups st' :
+    Inv (Some f) st -> (cur < f)%nat -> (f < nextfn st)%nat ->
+    assocn (parents st) f = Some (Some cur) -> assocn (varrefs st) f = None ->
+    (forall u j, ~ In ((f, u), j) (refs st)) ->
+    (forall u, In u (natives ups) -> env_ok st cur u) -> NoDup (natives ups) ->
+    set_function_var_refs true decls st cur f ups = st' ->
+    Inv None st' /\ ext st st' /\ parents st' = parents st /\ sites st' = sites st /\ nextfn st' = nextfn st /\
+    (forall u, In u (natives ups) -> ref_lookup (refs st') f u <> None) /\
+    (forall g, In g (globals st') -> In g (globals st) \/ In (g_name g) (natives ups)) /\
+    (forall u, In u (natives ups) -> In u (map g_name (globals st'))).
+  Proof.
+    intros HI Hcf Hf Hpar Hvn Hnone Henv Hnd E. unfold set_function_var_refs in E.
+    destruct (sfvr_loop true decls st cur f ups 0 []) as [st1 l] eqn:El.
+    assert (forall u j, In ((f, u), j) (refs st) ->
+              (j < 0)%nat /\ exists idx, nth_error (rev (@nil (option nat))) j = Some (Some idx) /\ points st cur idx u) as Hent0.
+    { intros u j Hin. exfalso. eapply Hnone. eassumption. }
+    assert (forall u j, In u (natives ups) -> ~ In ((f, u), j) (refs st)) as Hfresh by (intros; apply Hnone).
+    destruct (sfvr_spec cur f ups st 0%nat [] st1 l HI Hcf Hf Hpar eq_refl Hent0 Henv Hnd Hfresh El)
+      as (HI1 & He1 & Hp1 & Hv1 & Hs1 & Hn1 & Hent & Hlk & Hg & Hnm).
+    subst st'.
+    set (st2 := mkest (globals st1) (refs st1) (parents st1) ((f, l) :: varrefs st1) (sites st1) (nextfn st1)).
+    assert (assocn (varrefs st1) f = None) as Hvn1 by congruence.
+    assert (ext st1 st2) as He2.
+    { constructor; cbn [globals parents varrefs refs sites nextfn]; auto using incl_refl.
+      - exists []. rewrite app_nil_r. reflexivity.
+      - intros g H. apply assocn_cons_other. congruence. }
+    split; [|split; [eapply ext_trans; eassumption|
+      split; [exact Hp1|split; [exact Hs1|split; [exact Hn1|split; [exact Hlk|split; [exact Hg|exact Hnm]]]]]]].
+    destruct HI1 as [A1 A2 A2' A3 A4 A5 A6 A7]. rewrite <- Hp1 in Hpar.
+    subst st2. constructor.
+    - exact A1.
+    - discriminate.
+    - cbn [varrefs nextfn]. intros g l0 H. cbn [assocn] in H. destruct (Nat.eqb_spec f g) as [<-|Hne]; [lia|eauto].
+    - unfold complete. cbn [parents varrefs nextfn]. intros g Hglt _.
+      destruct (Nat.eq_dec g f) as [->|Hne].
+      + right. exists cur, l. split; [exact Hpar|apply assocn_cons_same].
+      + assert (Some g <> Some f) as Hgf by congruence.
+        destruct (A3 g Hglt Hgf) as [Hc|(p & l0 & Hc1 & Hc2)]; [left; assumption|].
+        right. exists p, l0. rewrite assocn_cons_other by congruence. auto.
+    - cbn [refs nextfn]. intros g v i Hin. destruct (A4 _ _ _ Hin) as [H1 H2]. split; [assumption|]. intros _.
+      destruct (Nat.eq_dec g f) as [->|Hne].
+      + destruct (Hent _ _ Hin) as (idx & Hn & (k & HR & Hk)). exists k. split; [|exact Hk].
+        eapply R_lit with (p := cur) (l := l) (j := idx).
+        * cbn [parents]. exact Hpar.
+        * cbn [varrefs]. apply assocn_cons_same.
+        * exact Hn.
+        * eapply R_ext; eassumption.
+      + eapply points_ext; [exact He2|]. apply H2. congruence.
+    - exact A5.
+    - exact A6.
+    - exact A7.
+  Qed.
+
+  (* ---------- emission of items ---------- *)
+
+  Definition site_ok (st : est) (s : N) (v : var) : Prop :=
+    exists f i, In (s, (f, i)) (sites st) /\ points st f i v.
+
+  Lemma site_ok_ext st st' s v : ext st st' -> site_ok st s v -> site_ok st' s v.
+  Proof.
+    intros He (f & i & H1 & H2). exists f, i. split; [apply (e_sites _ _ He); assumption|eapply points_ext; eassumption].
+  Qed.
+
+  Definition env_match (st : est) (cur : fnid) (env : option (list var)) : Prop :=
+    match env with
+    | None => is_top (parents st) cur = true
+    | Some us => forall u, In u us -> ref_lookup (refs st) cur u <> None
+    end.
+
+  Lemma env_match_ext st st' cur env : ext st st' -> env_match st cur env -> env_match st' cur env.
+  Proof.
+    intros He. destruct env as [us|]; cbn [env_match].
+    - intros H u Hu. apply (e_lookup _ _ He). auto.
+    - apply is_top_ext. assumption.
+  Qed.
+
+  Definition emit_post (st st' : est) (ss : list (N * var)) (vs : list var) : Prop :=
+    Inv None st' /\ ext st st' /\
+    (forall s v, In (s, v) ss -> site_ok st' s v) /\
+    (forall g, In g (globals st') -> In g (globals st) \/ In (g_name g) vs) /\
+    (forall v, In v vs -> In v (map g_name (globals st'))) /\
+    map fst (sites st') = rev (map fst ss) ++ map fst (sites st).
+
+  Lemma emit_post_refl st : Inv None st -> emit_post st st [] [].
+  Proof.
+    intros HI. split; [assumption|]. split; [apply ext_refl|]. split; [intros s v []|].
+    split; [intros g Hg; left; assumption|]. split; [intros v []|reflexivity].
+  Qed.
+
+  Lemma names_ext st st' v : ext st st' -> In v (map g_name (globals st)) -> In v (map g_name (globals st')).
+  Proof.
+    intros He H. destruct (e_globals _ _ He) as [m ->]. rewrite map_app. apply in_or_app. left. assumption.
+  Qed.
+
+  Lemma emit_post_trans a b c s1 v1 s2 v2 :
+    emit_post a b s1 v1 -> emit_post b c s2 v2 -> emit_post a c (s1 ++ s2) (v1 ++ v2).
+  Proof.
+    intros (I1 & E1 & S1 & G1 & N1 & M1) (I2 & E2 & S2 & G2 & N2 & M2).
+    split; [assumption|]. split; [eapply ext_trans; eassumption|]. split; [|split; [|split]].
+    - intros s v Hin. apply in_app_or in Hin. destruct Hin as [Hin|Hin]; [eapply site_ok_ext; eauto|auto].
+    - intros g Hg. destruct (G2 _ Hg) as [Hg1|Hg1]; [|right; apply in_or_app; right; assumption].
+      destruct (G1 _ Hg1) as [Hg0|Hg0]; [left; assumption|right; apply in_or_app; left; assumption].
+    - intros v Hin. apply in_app_or in Hin. destruct Hin as [Hin|Hin]; [eapply names_ext; eauto|auto].
+    - rewrite M2, M1, map_app, rev_app_distr, app_assoc. reflexivity.
+  Qed.
+
+  Definition item_spec (it : item) : Prop :=
+    forall cur st env,
+      Inv None st -> (cur < nextfn st)%nat -> wf_item decls env it -> env_match st cur env ->
+      emit_post st (emit_item true decls cur st it) (item_sites it) (item_vars it).
+
+  Lemma fold_spec body : Forall item_spec body ->
+    forall cur env st,
+      Inv None st -> (cur < nextfn st)%nat -> wf_body decls env body -> env_match st cur env ->
+      emit_post st (fold_left (emit_item true decls cur) body st) (flat_map item_sites body) (flat_map item_vars body).
+  Proof.
+    induction 1 as [|it body Hit _ IH]; intros cur env st HI Hcur Hwf Hem.
+    - cbn. apply emit_post_refl. assumption.
+    - inversion Hwf as [|? ? Hw1 Hw2]; subst. cbn [fold_left flat_map].
+      pose proof (Hit cur st env HI Hcur Hw1 Hem) as Hp1.
+      destruct Hp1 as (I1 & E1 & Hrest).
+      eapply emit_post_trans; [split; [exact I1|split; [exact E1|exact Hrest]]|].
+      apply (IH cur env); [assumption|pose proof (e_next _ _ E1); lia|assumption|eapply env_match_ext; eassumption].
+  Qed.
+
+  Lemma Inv_sites pend st s f i : Inv pend st -> Inv pend (add_site st s f i).
+  Proof.
+    intros [A1 A2 A2' A3 A4 A5 A6 A7].
+    assert (ext st (add_site st s f i)) as He.
+    { constructor; cbn [add_site globals parents varrefs refs sites nextfn]; auto using incl_refl, incl_tl.
+      exists []. rewrite app_nil_r. reflexivity. }
+    constructor; try assumption.
+    intros g v j Hin. destruct (A4 _ _ _ Hin) as [H1 H2]. split; [assumption|].
+    intros Hp. eapply points_ext; [exact He|auto].
+  Qed.
+
+  Lemma item_spec_all it : item_spec it.
+  Proof.
+    induction it as [s v|ups body IH] using item_ind'; intros cur st env HI Hcur Hwf Hem.
+    - (* a reference *)
+      cbn [emit_item item_sites item_vars]. cbn [wf_item] in Hwf. destruct Hwf as [Hd Hin].
+      destruct (predef_var_index true decls st cur v gen_globals_PackageName) as [st1 i] eqn:Ep.
+      assert (env_ok st cur v) as Hev.
+      { destruct env as [us|]; [right; apply Hem; assumption|left; exact Hem]. }
+      assert (Some cur <> None) as Hcp by discriminate.
+      destruct (pvi_spec None st cur v _ st1 i eq_refl HI Hcur Hcp Hev Ep)
+        as (HI1 & He1 & Hpt & Hp1 & Hv1 & Hs1 & Hn1 & Hg1 & Hr1).
+      assert (ext st1 (add_site st1 s cur i)) as He2.
+      { constructor; cbn [add_site globals parents varrefs refs sites nextfn]; auto using incl_refl, incl_tl.
+        exists []. rewrite app_nil_r. reflexivity. }
+      split; [apply Inv_sites; assumption|]. split; [eapply ext_trans; eassumption|].
+      split; [|split; [|split]].
+      + intros s' v' [Heq|[]]. injection Heq as <- <-. exists cur, i. split; [left; reflexivity|].
+        eapply points_ext; eassumption.
+      + intros g Hg. cbn [add_site globals] in Hg. destruct (Hg1 _ Hg) as [H|H]; [left; assumption|right; left; auto].
+      + intros v' [<-|[]]. cbn [add_site globals]. destruct Hpt as (k & _ & Hk). apply nth_error_In in Hk.
+        apply in_map_iff. exists (global_of v). split; [reflexivity|assumption].
+      + cbn [add_site sites map fst rev app]. rewrite Hs1. reflexivity.
+    - (* a function literal *)
+      cbn [item_sites item_vars].
+      change (emit_item true decls cur st (ILit ups body))
+        with (let '(st1, f) := new_fn st (Some cur) in
+              fold_left (emit_item true decls f) body (set_function_var_refs true decls st1 cur f ups)).
+      destruct (new_fn st (Some cur)) as [st1 f] eqn:En.
+      assert (forall p, Some cur = Some p -> (p < nextfn st)%nat) as Hparlt by (intros p Hp; injection Hp as <-; assumption).
+      destruct (new_fn_Inv st (Some cur) st1 f HI Hparlt En)
+        as (Hf & Hn1 & Hr1 & Hg1 & Hs1 & Hv1 & Hpf & Hvf & HI1).
+      pose proof (new_fn_ext _ _ _ _ (i_parents _ _ HI) En) as He1.
+      cbn [wf_item] in Hwf. destruct Hwf as (Hnd & Hups & Hbody).
+      assert (wf_body decls (Some (natives ups)) body) as Hwb.
+      { unfold wf_body. clear - Hbody. induction body as [|x r IHr]; constructor; [apply Hbody|apply IHr; apply Hbody]. }
+      set (st2 := set_function_var_refs true decls st1 cur f ups).
+      assert (forall u j, ~ In ((f, u), j) (refs st1)) as Hnone.
+      { intros u j Hin. rewrite Hr1 in Hin. destruct (i_refs _ _ HI _ _ _ Hin) as [Hlt _]. lia. }
+      assert (forall u, In u (natives ups) -> env_ok st1 cur u) as Henv.
+      { intros u Hu. destruct (Hups u Hu) as [_ Hin]. destruct env as [us|].
+        - right. rewrite Hr1. apply Hem. assumption.
+        - left. eapply is_top_ext; [exact He1|exact Hem]. }
+      destruct (sfvr_done st1 cur f ups st2 HI1) as (HI2 & He2 & Hp2 & Hs2 & Hn2 & Hlk & Hg2 & Hnm2);
+        try assumption; try lia; try reflexivity.
+      assert (emit_post st st2 [] (natives ups)) as Hpost1.
+      { split; [assumption|]. split; [eapply ext_trans; eassumption|]. split; [intros s v []|].
+        split; [|split].
+        - intros g Hg. destruct (Hg2 _ Hg) as [H|H]; [left; rewrite <- Hg1; assumption|right; assumption].
+        - assumption.
+        - cbn [map rev app]. rewrite Hs2, Hs1. reflexivity. }
+      change (item_sites (ILit ups body)) with (flat_map item_sites body).
+      change (flat_map item_sites body) with ([] ++ flat_map item_sites body).
+      eapply emit_post_trans; [exact Hpost1|].
+      apply (fold_spec body IH f (Some (natives ups))); [assumption|lia|assumption|exact Hlk].
+  Qed.
+
+  (* ---------- package-level functions and the program ---------- *)
+
+  Lemma top_spec body st :
+    Inv None st -> wf_body decls None body ->
+    emit_post st (emit_top true decls st body) (flat_map item_sites body) (flat_map item_vars body).
+  Proof.
+    intros HI Hwf. unfold emit_top.
+    destruct (new_fn st None) as [st1 f] eqn:En.
+    assert (forall p, @None fnid = Some p -> (p < nextfn st)%nat) as Hparlt by discriminate.
+    destruct (new_fn_Inv st None st1 f HI Hparlt En) as (Hf & Hn1 & Hr1 & Hg1 & Hs1 & Hv1 & Hpf & Hvf & HI1).
+    pose proof (new_fn_ext _ _ _ _ (i_parents _ _ HI) En) as He1.
+    assert (emit_post st st1 [] []) as Hp0.
+    { split; [assumption|]. split; [assumption|]. split; [intros s v []|].
+      split; [intros g Hg; left; rewrite <- Hg1; assumption|]. split; [intros v []|].
+      cbn [map rev app]. rewrite Hs1. reflexivity. }
+    change (flat_map item_sites body) with ([] ++ flat_map item_sites body).
+    change (flat_map item_vars body) with ([] ++ flat_map item_vars body).
+    eapply emit_post_trans; [exact Hp0|].
+    apply (fold_spec body) with (env := None); try assumption.
+    - apply Forall_forall. intros it _. apply item_spec_all.
+    - lia.
+    - cbn [env_match]. apply is_top_parent. assumption.
+  Qed.
+
+  Lemma prog_spec tops : forall st,
+    Inv None st -> wf_prog decls tops ->
+    emit_post st (fold_left (emit_top true decls) tops st) (prog_sites tops) (prog_vars tops).
+  Proof.
+    induction tops as [|body tops IH]; intros st HI Hwf.
+    - apply emit_post_refl. assumption.
+    - inversion Hwf as [|? ? Hw1 Hw2]; subst. cbn [fold_left]. unfold prog_sites, prog_vars. cbn [flat_map].
+      pose proof (top_spec body st HI Hw1) as Hp1.
+      eapply emit_post_trans; [exact Hp1|]. apply IH; [apply Hp1|assumption].
+  Qed.
+
+  Lemma Inv_init : Inv None init_est.
+  Proof.
+    constructor; cbn.
+    - intros f op H. discriminate.
+    - discriminate.
+    - intros f l H. discriminate.
+    - intros f H. lia.
+    - intros f v i [].
+    - constructor.
+    - intros g [].
+    - intros k g H. destruct k; discriminate.
+  Qed.
+
+  (* Every reference site designates the global of its variable; there is one
+     global per used variable, in the package of the globals. *)
+  Theorem emit_correct tops :
+    wf_prog decls tops -> NoDup (map fst (prog_sites tops)) ->
+    let st := emit_prog true decls tops in
+    (forall s v, In (s, v) (prog_sites tops) ->
+                 exists k, resolve_site st s = Some k /\ nth_error (globals st) k = Some (global_of v)) /\
+    NoDup (map g_name (globals st)) /\
+    (forall g, In g (globals st) -> g = global_of (g_name g)) /\
+    (forall v, In v (map g_name (globals st)) <-> In v (prog_vars tops)).
+  Proof.
+    intros Hwf Hnd st.
+    destruct (prog_spec tops init_est Inv_init Hwf) as (HI & He & Hs & Hg & Hn & Hm).
+    fold (emit_prog true decls tops) in HI, He, Hs, Hg, Hn, Hm. fold st in HI, He, Hs, Hg, Hn, Hm.
+    cbn [init_est sites map app globals] in Hm, Hg. rewrite app_nil_r in Hm.
+    split; [|split; [exact (i_names _ _ HI)|split; [exact (i_globals _ _ HI)|]]].
+    - intros s v Hin. destruct (Hs s v Hin) as (f & i & Hsi & (k & HR & Hk)).
+      exists k. split; [|exact Hk]. unfold resolve_site.
+      rewrite (assoc_get_NoDup (sites st) s (f, i)); [|rewrite Hm; apply NoDup_rev; exact Hnd|exact Hsi].
+      apply R_resolve; [exact (i_parents _ _ HI)|exact HR|].
+      assert (f < nextfn st)%nat; [|lia].
+      inversion HR as [? ? Hp|? ? ? ? ? ? Hp]; subst; apply (i_parents _ _ HI _ _ Hp).
+    - intros v. split; [|apply Hn]. intros Hin. apply in_map_iff in Hin. destruct Hin as (g & <- & Hin).
+      destruct (Hg g Hin) as [[]|H]. exact H.
+  Qed.
 End Emission.
